@@ -165,11 +165,28 @@ def install() -> None:
 
     imap_mod.ConnectionState = RegisteringState
 
+    # pysasl scans importlib entry points on every SASLAuth.defaults() call
+    # (7 ms per connection); the set of installed mechanisms cannot change
+    # while a check runs, so scan once and build fresh instances from it.
+    import pysasl
+    from pysasl import mechanism as _mech
+    from importlib.metadata import entry_points as _eps
+    _classes = [(ep.name, ep.load()) for ep in _eps(group=_mech.__package__)]
+
+    def _get_builtin_mechanisms(cls):
+        for name, mech_cls in _classes:
+            yield mech_cls(name)
+    pysasl.SASLAuth._get_builtin_mechanisms = classmethod(
+        _get_builtin_mechanisms)
+
     root = logging.getLogger('pymap')
     root.setLevel(logging.ERROR)
     root.addHandler(_LogCapture())
     root.propagate = False
     logging.getLogger('asyncio').setLevel(logging.CRITICAL)
+    # everything imported so far is permanent: keep it out of gc.collect()
+    gc.collect()
+    gc.freeze()
 
 
 def reset_process_state(seed: int) -> None:
